@@ -521,7 +521,11 @@ func TestCheck(t *testing.T) {
 	helloFragments(r, keys)
 
 	r.Floor("replays_ok", int64(n/2))
-	r.Floor("cuts_ok", int64(len(jobs)/3))
+	// a cut is judged either way: inside the first record (NewConn must fail) or behind it (conservation). How the
+	// offsets divide between the two depends on the size of the drawn hellos, so the floor is on their sum.
+	r.Count("cuts_judged", r.Counter("cuts_ok")+r.Counter("cut_in_first_record"))
+	r.Floor("cuts_judged", int64(len(jobs))*9/10)
+	r.Floor("cuts_ok", int64(len(jobs)/8))
 	r.Floor("record_lengths_covered", int64(len(lens)))
 }
 
